@@ -11,6 +11,11 @@ Str(s) == IF s = <<>> THEN "" ELSE s[1] \o Str(Tail(s))
 
 \* directory above `src`, dashes as underscores
 CrateName(dir) == ReplaceChar(dir, "-", "_")
+\* the crate that contains a source file: the directory above the `src` directory NEAREST to the file (the crate's own src/);
+\* a directory that happens to be called src further up the path (~/src/project/...) is not a crate root.
+\* path: sequence of path components (strings), the file name last. "" when no component is called src.
+SrcPositions(path) == {i \in 2..(Len(path) - 1) : path[i] = "src"}
+CrateDirOf(path) == IF SrcPositions(path) = {} THEN "" ELSE path[(CHOOSE i \in SrcPositions(path) : \A j \in SrcPositions(path) : j <= i) - 1]
 \* Swift: PascalCase of the crate name (capitalise after '_' and drop it)
 Pascal(s) == FlattenSeq([i \in 1..Len(s) |->
                  IF s[i] = "_" THEN <<>> ELSE IF i = 1 \/ s[i-1] = "_" THEN <<AsciiUpper(s[i])>> ELSE <<s[i]>>])
